@@ -22,6 +22,13 @@ MUTANTS = [
     ("C05", "processor/variable_set_processor.py", "        if not self.check_var_count():\n            # we have exceeded the var count, so do not continue\n            return False\n\n        node_value = node.value\n        if node_value is None:\n            # this node has no value, continue with children\n            return True\n",
      "        node_value = node.value\n        if node_value is None:\n            # this node has no value, continue with children\n            return True\n        if not self.check_var_count():\n            return False\n"),
     ("C05", "processor/variable_set_processor.py", "        node.parent.add_child(var_id)\n", ""),
+    ("C05", "processor/variable_processor.py", "if total >= var_collector.max_collection_size:", "if total > var_collector.max_collection_size:"),
+    ("C05", "processor/variable_processor.py", "if frame_depth + 1 >= var_collector.max_var_depth:", "if frame_depth >= var_collector.max_var_depth:"),
+    ("C05", "processor/variable_processor.py", "    'traceback'\n]", "    'traceback',\n    'bytes'\n]"),
+    ("C05", "processor/variable_processor.py", "NO_CHILD_TYPES += ITER_LIKE_TYPES\n", "NO_CHILD_TYPES = NO_CHILD_TYPES + []\n"),
+    ("C02", "processor/variable_processor.py", "NodeValue(str(total), val_)", "NodeValue(str(total + 1), val_)"),
+    ("C02", "processor/variable_processor.py", '    prefix = "_" + name\n', '    prefix = "__" + name\n'),
+    ("C02", "processor/variable_processor.py", "        return val[len(prefix):]\n", "        return val[len(name):]\n"),
     ("C02", "processor/variable_processor.py", "    if var_name.startswith(\"_\"):\n        return ['protected']", "    if var_name.startswith(\"_\"):\n        return ['private']"),
     ("C10", "processor/context/action_context.py", "        if isinstance(result, BaseException):\n", "        if isinstance(result, BaseException) and False:\n"),
     ("C10", "utils.py", '("yes", "true", "t", "1", "y")', '("yes", "true", "t", "1", "y", "on")'),
